@@ -56,7 +56,7 @@ theorem exec_loadActualsV (K : PCtx) (wf : K.WF) : ∀ (es : List X.Expr) (fuel 
       loadActuals K.ctx (optArgsOf K.ρ es) p saved gs = .ok (code, gs') → At K.env.ds i (K.low code) → Rep K st mem →
       gs'.size + (p + es.length) ≤ K.S → K.nlocals ≤ gs.offset → gs.offset ≤ gs.size → ConstsIn K gs' →
       ∃ a' b' mem', Steps K.env (cfg i a b mem) io (cfg (i + (K.low code).length) a' b' mem') io ∧ Rep K st mem' ∧
-        (∀ k (hk : k < vs.length), mem'.read (K.sp + p + k) = wordOf K.abase vs[k]) ∧ (∀ v ∈ vs, okV v = true) ∧
+        (∀ k (hk : k < vs.length), K.VRep vs[k] (mem'.read (K.sp + p + k))) ∧
         (∀ q, q < p → mem'.read (K.sp + q) = mem.read (K.sp + q)) ∧
         FrmC K gs.offset K.S mem mem' := by
   intro es
@@ -72,7 +72,7 @@ theorem exec_loadActualsV (K : PCtx) (wf : K.WF) : ∀ (es : List X.Expr) (fuel 
       | zero => rw [evalArgs_zero] at hev; simp at hev
       | succ f => rw [evalArgs_nil] at hev; simp only [Res.ok.injEq] at hev; exact hev.1.symm
     subst hws
-    exact ⟨a, b, mem, Steps.refl _ _, hr, fun k hk => by simp at hk, fun v hv => by simp at hv, fun _ _ => rfl,
+    exact ⟨a, b, mem, Steps.refl _ _, hr, fun k hk => by simp at hk, fun _ _ => rfl,
       FrmC.refl _ _ _ _⟩
   | cons e rest ih =>
     intro fuel st s vs hp hev p saved gs code gs' i a b mem io hio hg hat hr hb hnl hos hci
@@ -82,7 +82,6 @@ theorem exec_loadActualsV (K : PCtx) (wf : K.WF) : ∀ (es : List X.Expr) (fuel 
     | succ f =>
       obtain ⟨v0, s1, vs', h1, h2, hvs⟩ := evalArgs_cons_inv _ _ _ _ _ _ _ hev
       subst hvs
-      obtain ⟨v, hvdef⟩ : ∃ v, v = wordOf K.abase v0 := ⟨_, rfl⟩
       have hpe := hp e (by simp)
       have hprest : ∀ x ∈ rest, pureE x = true := fun x hx => hp x (by simp [hx])
       simp only [optArgsOf, List.map_cons] at hg
@@ -94,8 +93,7 @@ theorem exec_loadActualsV (K : PCtx) (wf : K.WF) : ∀ (es : List X.Expr) (fuel 
         simp only [List.length_cons] at hb
         simp only [low_append, List.append_assoc] at hat ⊢
         have hA := expr_pure_val K wf f e st v0 s1 hpe h1
-        rw [← hvdef] at hA
-        obtain ⟨b1, mem1, st1, rep1, frm1⟩ := hA gs c gs1 i a b mem hg1 hat.left hr
+        obtain ⟨v, b1, mem1, hPv, st1, rep1, frm1⟩ := hA gs c gs1 i a b mem hg1 hat.left hr
           (by have := e2.2.1; omega) hnl (hci.of_eff e2)
         rw [hiB_true] at frm1
         -- store into the parameter slot
@@ -123,11 +121,11 @@ theorem exec_loadActualsV (K : PCtx) (wf : K.WF) : ∀ (es : List X.Expr) (fuel 
           rw [slot_of_out K p hpS]; exact e.symm
         have rep2 := rep1.frame wf frm2 (by have := e1.2.1; have := e2.2.1; omega) (by omega)
         have hs1 := eval_pure K.xc _ _ _ _ _ hpe h1
-        obtain ⟨a', b', mem', st3, rep3, hvals, hokv, hkeep, frm3⟩ := ih f s1 s vs' hprest h2 (p + 1) saved gs1 cs gs'
+        obtain ⟨a', b', mem', st3, rep3, hvals, hkeep, frm3⟩ := ih f s1 s vs' hprest h2 (p + 1) saved gs1 cs gs'
           (i + (K.low c).length + 1 + 1) v (mem1.read 1) (mem1.write (K.sp + p) v) st.io hs1.2.2.2.1 hg2
           (by simpa [Nat.add_assoc] using hat.right.right) (rep2.same hs1)
           (by omega) (by have := e1.1; omega) (by have := e1.1; have := e1.2.1; omega) hci
-        refine ⟨a', b', mem', ?_, rep3.same hs1.symm, ?_, ?_, ?_, ?_⟩
+        refine ⟨a', b', mem', ?_, rep3.same hs1.symm, ?_, ?_, ?_⟩
         · have : i + ((K.low c).length + ([Dir.imm 1 1, Dir.imm 8 (p : Int)].length + (K.low cs).length))
               = i + (K.low c).length + 1 + 1 + (K.low cs).length := by
             simp only [List.length_cons, List.length_nil]; omega
@@ -138,17 +136,15 @@ theorem exec_loadActualsV (K : PCtx) (wf : K.WF) : ∀ (es : List X.Expr) (fuel 
           cases k with
           | zero =>
             simp only [Nat.add_zero, List.getElem_cons_zero]
-            rw [hkeep p (by omega), Mem.read_write_same _ _ _ hsl1, hvdef]
+            rw [hkeep p (by omega), Mem.read_write_same _ _ _ hsl1]
+            exact hPv
           | succ k' =>
             simp only [List.length_cons] at hk
             have := hvals k' (by omega)
             simp only [List.getElem_cons_succ]
-            rw [← this]
-            congr 1; omega
-        · intro x hx
-          rcases List.mem_cons.mp hx with rfl | hx
-          · exact eval_pure_okV K f e st _ s1 mem hpe hr h1
-          · exact hokv x hx
+            have e : K.sp + p + (k' + 1) = K.sp + (p + 1) + k' := by omega
+            rw [e]
+            exact this
         · intro q hq
           rw [hkeep q (by omega), Mem.read_write_other _ _ _ _ (by omega)]
           apply frm1 _ (by omega) (wf.not_inArr _ (by omega))
@@ -164,10 +160,6 @@ theorem exec_loadActualsV (K : PCtx) (wf : K.WF) : ∀ (es : List X.Expr) (fuel 
             (by have := e1.2.1; have := e2.2.1; omega) (by omega) (by rw [slot_of_out K p hpS]; exact e.symm))]
           exact frm1 ad hsp hna (fun k h1' h2' => had k h1' (by have := e2.2.1; omega))
 
-theorem wordOf_int_getElem (abase : Nat → Nat) (ws : List Word) (k : Nat) (hk : k < (ws.map Val.int).length) :
-    wordOf abase (ws.map Val.int)[k] = ws[k]'(by simpa using hk) := by
-  simp [wordOf]
-
 /-- The same for integer actuals. -/
 theorem exec_loadActuals (K : PCtx) (wf : K.WF) (es : List X.Expr) (fuel : Nat) (st s : X.St) (ws : List Word)
     (hp : ∀ e ∈ es, pureE e = true) (hev : X.evalArgs fuel K.xc es st = .ok (ws.map Val.int) s)
@@ -178,12 +170,12 @@ theorem exec_loadActuals (K : PCtx) (wf : K.WF) (es : List X.Expr) (fuel : Nat) 
       (∀ k (hk : k < ws.length), mem'.read (K.sp + p + k) = ws[k]) ∧
       (∀ q, q < p → mem'.read (K.sp + q) = mem.read (K.sp + q)) ∧
       FrmC K gs.offset K.S mem mem' := by
-  obtain ⟨a', b', mem', h1, h2, h3, _, h5, h6⟩ := exec_loadActualsV K wf es fuel st s _ hp hev p saved gs code gs' i a b mem io hio
+  obtain ⟨a', b', mem', h1, h2, h3, h5, h6⟩ := exec_loadActualsV K wf es fuel st s _ hp hev p saved gs code gs' i a b mem io hio
     hg hat hr hb hnl hos hci
   refine ⟨a', b', mem', h1, h2, fun k hk => ?_, h5, h6⟩
   have := h3 k (by simpa using hk)
-  rw [this]
-  exact wordOf_int_getElem K.abase ws k (by simpa using hk)
+  simp only [List.getElem_map] at this
+  exact this
 
 /-! ### System-call statements -/
 
